@@ -98,6 +98,19 @@ def d1_rounding(ctx):
                         and du.cfg.reachable(d.node, du.cfg.node_for(x)) and du.cfg.reachable(du.cfg.node_for(x), du.cfg.node_for(c))
                         and du.cfg.guards(du.cfg.node_for(x)) == du.cfg.guards(d.node)]
                 casts_alt.append((c, d.value, d.stmt, bool(inpl)))
+        elif nm_ and len(ds_) == 1 and isinstance(ds_[0].value, ast.Call) and call_name(ds_[0].value) in ("empty", "empty_like", "zeros", "zeros_like"):
+            # a preallocated frame filled by ufuncs with out= : np.divide(volts, factors, out=frame[:, cols]) ... np.round(frame, out=frame); the value cast is those quotients
+            fills = [x for x in find(fi.node, ast.Call) if call_name(x) in ("divide", "true_divide") and len(x.args) >= 2 and kwarg(x, "out") is not None
+                     and loc_name(kwarg(x, "out").value if isinstance(kwarg(x, "out"), ast.Subscript) else kwarg(x, "out")) == nm_
+                     and du.cfg.reachable(ds_[0].node, du.cfg.node_for(x)) and du.cfg.reachable(du.cfg.node_for(x), du.cfg.node_for(c))]
+            if fills:
+                inpl = [x for x in find(fi.node, ast.Call) if call_name(x) in ("round", "rint", "around") and x.args and loc_name(x.args[0]) == nm_ and loc_name(kwarg(x, "out")) == nm_
+                        and all(du.cfg.reachable(du.cfg.node_for(f_), du.cfg.node_for(x)) for f_ in fills) and du.cfg.must_pass([du.cfg.node_for(x)], du.cfg.node_for(c))]
+                synth = ast.Tuple(elts=[ast.copy_location(ast.BinOp(left=f_.args[0], op=ast.Div(), right=f_.args[1]), f_) for f_ in fills], ctx=ast.Load())
+                ast.fix_missing_locations(synth)
+                casts_alt.append((c, synth, fills[0], bool(inpl)))
+            else:
+                casts_alt.append((c, operand, c, False))
         else:
             casts_alt.append((c, operand, c, False))
     for c, operand, at_, rounded_inplace in casts_alt:
